@@ -317,3 +317,26 @@ package op
 //@ func Accidental.String returns (s)
 //@   pure
 //@   ensures s == accStr(a)
+
+// ---- the body of Convert's loop over the spellings of the member reached so far (C14) ----
+// (the loop itself is a range over an iterator function; Go's protocol around the body is not modelled)
+
+//@ func CircleMember.String returns (s)
+//@   trusted
+//@   pure
+
+//@ func KeyConversion.String returns (s)
+//@   trusted
+//@   pure
+
+// read by any one of its spellings k, the member is converted by x according to the step law; a supported
+// spelling ends the loop with the new member and no error
+//@ func KeyConversionChain.Convert$1 returns (cont)
+//@   enumerate arg0 in keySignatures
+//@   modifies m, rErr, jump$1
+//@   allocs []Iface, map[Key]bool
+//@   requires wfCOF(c) && validConv(x) && captured("jump$1") == 0
+//@   requires dom(m.scales, k) && m.scales[k] != nil && m.scales[k].Key == k
+//@   ensures cont == !supported(k)
+//@   ensures !cont ==> rErr == nil && keysAt(m, k.Minor != flips(x), ksemi(k) + shift(x, k.Minor))
+//@   ensures cont ==> rErr != nil && m == old(m)
